@@ -232,7 +232,18 @@ def monitor(case, tr, raw):
         return "implementation produced no trace: %s" % (raw or "")[:80]
     if (raw or "").strip() == "-1":
         return None
+    aux = [e for e in tr if e[2] == 929]
+    tr = [e for e in tr if e[2] != 929]
     res = analyse(case, tr)
+    # "memory and stack are reclaimed exactly once": fiber_destroy releases the stack (fiber_context_destroy), the
+    # fiber's queue node and the control block; the first two are monitor-only observations of the T1 machine
+    if any(loc == 600 and kind == 919 for (_, loc, kind, _) in tr):
+        nstack = sum(1 for (_, loc, _, val) in aux if loc == 960 and val == 1000)
+        nnode = sum(1 for (_, loc, _, val) in aux if loc == 961)
+        if nstack != 1:
+            res = list(res or []) + [("the target's control block was reclaimed but its stack was released %d times" % nstack, None)]
+        if nnode != 1:
+            res = list(res or []) + [("the target's control block was reclaimed but its queue node was released %d times" % nnode, None)]
     if not res:
         return None
     # unknown causes first, so that a new violation is never hidden behind a known one
